@@ -13,7 +13,14 @@ that the anchored code relies on (the glue: parsing, copying, hashing, option ha
 (ii) breakage that only shows under a particular option / configuration / session-kind combination; (iii) state carried
 across operations (caches, counters, reference counts, reconnects, re-registration, replaced policies); (iv) boundary
 values of sizes, lengths, counts and identifiers; (v) two cooperating sites that each look fine alone.
-""" if suf else ""
+""" if suf.startswith("r2") else ""
+round3 = """This is a THIRD round. Mutations inside the central functions of the anchored files and in their direct helpers have
+been tried. Now target the WIRING that makes the property hold in the running daemon: how sessions create, register, initialise,
+replace and dispose their tables and senders (protocols/bgp/server/fsm_address_family.go init/dispose/bmpInit, fsm_established.go,
+peer.go, server.go, bgp_api.go, routingtable/vrf, routingtable/client_manager.go, cmd/bio-rd), the order of calls, which object
+is passed where (the right VRF / RIB / chain / options for the right address family), what happens on the second establishment
+of a session, with two address families, two VRFs, or two peers sharing state. The change must still break THIS property.
+""" if suf.startswith("r3") else ""
 prompt = f"""You are testing how well a Go project's verification catches regressions. Work ONLY inside the git
 worktree {wt} (a checkout of bio-routing/bio-rd, a BGP / IS-IS / BMP routing daemon in Go). Do not look at or
 touch /verif or /repo. Per shell call first run:
@@ -33,7 +40,7 @@ optimisation or a bug fix gone wrong), each of which BREAKS this property while
  (c) the breakage needs something specific to manifest — a particular interleaving, a fault at a particular point, a
      multi-step sequence of operations, an unusual input / boundary value, or two cooperating sites that each look fine
      alone — NOT something ordinary use would expose at once.
-{round2}Do not change any test file or verif_hooks file. NEVER use `git stash` (the stash is shared with other worktrees of this repository and other people use them concurrently): use `git diff > file`, `git checkout -- <file>`, `git apply file` instead. Each change should be small (a few lines) and plausible. The two
+{round2}{round3}Do not change any test file or verif_hooks file. NEVER use `git stash` (the stash is shared with other worktrees of this repository and other people use them concurrently): use `git diff > file`, `git checkout -- <file>`, `git apply file` instead. Each change should be small (a few lines) and plausible. The two
 changes should break the property in different ways (different clause, different code site).
 
 For each change deliver in {wt}/out/<n>/ (n = 1, 2):
